@@ -77,7 +77,17 @@ func decidePlain(data []byte) (int64, []byte, bool) {
 	return id, data[20:], true
 }
 
+// kept: messages the deserialisers have handed out; they must stay what they were while further packets are handled
+var kept hx.Retain
+
 func oracle(c Case) error {
+	if err := oracleOne(c); err != nil {
+		return err
+	}
+	return kept.Verify()
+}
+
+func oracleOne(c Case) error {
 	return hx.Safely(func() error {
 		if c.Plain {
 			id, body, ok := decidePlain(c.Data)
@@ -94,6 +104,7 @@ func oracle(c Case) error {
 			if m.MsgID != id || !bytes.Equal(m.Msg, body) {
 				return fmt.Errorf("[%s] plain packet opened to a different message", c.Fault)
 			}
+			kept.Keep("the body of an accepted plain message", func() []byte { return m.Msg })
 			return nil
 		}
 		want, ok := decide(c.Key, c.Data)
@@ -110,6 +121,7 @@ func oracle(c Case) error {
 		if m.Salt != want.Salt || m.SessionID != want.Session || m.MsgID != want.MsgID || m.SeqNo != want.SeqNo || !bytes.Equal(m.Msg, want.Body) {
 			return fmt.Errorf("[%s] yielded a message different from the sealed one", c.Fault)
 		}
+		kept.Keep("the body of an accepted message", func() []byte { return m.Msg })
 		return nil
 	})
 }
